@@ -426,3 +426,104 @@ def rebuild_state(env, counters, s):
 
 def obs_list(o):
     return [float(x) for x in np.asarray(o, dtype=float).ravel()]
+
+
+# ----------------------------------------------------------------------------
+# tabular actor-critic policy
+# ----------------------------------------------------------------------------
+from lerax.policy import AbstractActorCriticPolicy, AbstractPolicyState  # noqa: E402
+
+
+class TabPState(AbstractPolicyState):
+    h: Array
+
+
+class TabPolicy(AbstractActorCriticPolicy):
+    name: ClassVar[str] = "TabPolicy"
+    action_space: Any
+    observation_space: Any
+    ACT: Array  # [NO,NH,KA] candidate actions
+    V: Array  # [NO,NH]
+    LP: Array  # [NO,NA]
+    MU: Array  # [NO]
+    box: bool = eqx.field(static=True)
+    NH: int = eqx.field(static=True)
+    NHR: int = eqx.field(static=True)
+    NA: int = eqx.field(static=True)
+
+    def __init__(self, pspec: dict, action_space, observation_space):
+        self.NHR = int(pspec["NHR"])
+        self.box = bool(pspec["box"])
+        self.NH = int(pspec["NH"]); self.NA = int(pspec["NA"])
+        self.ACT = jnp.asarray(pspec["ACT"], dtype=float if self.box else int)
+        self.V = jnp.asarray(pspec["V"], dtype=float)
+        self.LP = jnp.asarray(pspec["LP"], dtype=float)
+        self.MU = jnp.asarray(pspec["MU"], dtype=float)
+        self.action_space = action_space
+        self.observation_space = observation_space
+
+    def reset(self, *, key):
+        return TabPState(raw(key) % self.NHR)
+
+    def _oi(self, observation):
+        return jnp.floor(jnp.asarray(observation, dtype=float).reshape(-1)[0]).astype(int)
+
+    def _logp(self, oi, action):
+        if self.box:
+            a = jnp.asarray(action, dtype=float).reshape(())
+            return -((a - self.MU[oi]) * (a - self.MU[oi]))
+        return self.LP[oi, jnp.asarray(action, dtype=int).reshape(())]
+
+    def _choose(self, state, observation, key, action_mask):
+        oi = self._oi(observation)
+        cand = self.ACT[oi, state.h, raw(key) % self.ACT.shape[2]]
+        if action_mask is not None and not self.box:
+            idx = (cand + jnp.arange(self.NA)) % self.NA
+            allowed = jnp.asarray(action_mask)[idx]
+            a = jnp.where(jnp.any(allowed), idx[jnp.argmax(allowed)], cand)
+        else:
+            a = cand
+        if self.box:
+            a = a.reshape(self.action_space.shape)
+        return oi, a, TabPState((state.h + 1 + oi) % self.NH)
+
+    def __call__(self, state, observation, *, key=None, action_mask=None):
+        oi, a, nxt = self._choose(state, observation, jr.key(0) if key is None else key, action_mask)
+        return nxt, a
+
+    def action_and_value(self, state, observation, *, key, action_mask=None):
+        oi, a, nxt = self._choose(state, observation, key, action_mask)
+        return nxt, a, self.V[oi, state.h], self._logp(oi, a)
+
+    def value(self, state, observation):
+        return state, self.V[self._oi(observation), state.h]
+
+    def evaluate_action(self, state, observation, action, *, action_mask=None):
+        oi = self._oi(observation)
+        return state, self.V[oi, state.h], self._logp(oi, action), jnp.asarray(0.0)
+
+
+def random_ptab(rng, spec, asp, nobs, det=False):
+    """stub policy tables for an env whose (wrapped) action space is `asp` and whose observations are ints < nobs"""
+    NH = int(rng.integers(1, 4)); KA = 1 if det else int(rng.integers(1, 4))
+    box = asp[0] == "box"
+    dy = lambda lo, hi, den: float(rng.integers(lo, hi + 1)) / den
+    if box:
+        lo = asp[2] if asp[2] is not None else -2.0
+        hi = asp[3] if asp[3] is not None else 2.0
+        # proposals deliberately outside [lo, hi] so that clipping is observable
+        ACT = [[[dy(int(lo * 4) - 6, int(hi * 4) + 6, 4) for _ in range(KA)] for _ in range(NH)] for _ in range(nobs)]
+        NA = 1
+    else:
+        NA = int(asp[1])
+        ACT = [[[int(rng.integers(0, NA)) for _ in range(KA)] for _ in range(NH)] for _ in range(nobs)]
+    return {"box": box, "NH": NH, "NHR": 1 if det else NH, "NA": NA, "ACT": ACT,
+            "V": [[dy(-8, 8, 2) for _ in range(NH)] for _ in range(nobs)],
+            "LP": [[dy(-16, 0, 4) for _ in range(max(NA, 1))] for _ in range(nobs)],
+            "MU": [dy(-4, 4, 2) for _ in range(nobs)]}
+
+
+def ptab_lit(p):
+    g3 = lambda rows: listl(listl(listl(ql(x) for x in r) for r in m) for m in rows)
+    g2 = lambda m: listl(listl(ql(x) for x in r) for r in m)
+    return f"(Build_ptab {zl(p['NH'])} {zl(p['NHR'])} {zl(p['NA'])} {g3(p['ACT'])} {g2(p['V'])} {g2(p['LP'])} {listl(ql(x) for x in p['MU'])} {bl(p['box'])})"
